@@ -62,10 +62,10 @@ CORE_CFGS = {'quick': 'MC_Grammar_core_q.cfg', 'thorough': 'MC_Grammar_core_t.cf
 @check('C01')
 def c01(tier: str) -> int:
     return _multi_grammar('C01', tier, [
-        (CORE_CFGS, C01_CLAUSES, conv.ev_from_data, {'extra_sp': 1, 'reverse': True}),
+        (CORE_CFGS, C01_CLAUSES, conv.ev_from_data, {'extra_sp': 0 if tier == 'quick' else 1, 'reverse': True}),
         (CLS_CFGS, C01_CLAUSES, conv.ev_from_data, {'extra_sp': 1, 'reverse': True}),
-        (SCALAR_CFGS, C01_CLAUSES, conv.ev_from_data, {}),
-    ])
+        (SCALAR_CFGS, C01_CLAUSES, conv.ev_from_data, {'extra_sp': 2}),
+    ], extra=_random_stage(C01_CLAUSES, conv.ev_from_data, 4000, 150000))
 
 
 def _grammar_check(pid: str, tier: str, cfgs: dict, owned: set, make_event, *, reverse=False, extra_sp=1,
@@ -107,7 +107,7 @@ def c03(tier: str) -> int:
         (EXC_CFGS, C03_CLAUSES, conv.ev_passes, {}),
         (TAGGED_CFGS, C03_CLAUSES, conv.ev_passes, {}),
         (CLS_CFGS, C03_CLAUSES, conv.ev_passes, {}),
-    ])
+    ], extra=_random_stage(C03_CLAUSES, conv.ev_passes, 3000, 100000))
 
 
 @check('C09')
@@ -122,7 +122,7 @@ def c09(tier: str) -> int:
         (TAGGED_CFGS, own, conv.ev_snapshot_convert, {}),
         (SCALAR_CFGS, own, conv.ev_snapshot_into, {}),
         (CLS_CFGS, own, conv.ev_snapshot_into, {}),
-    ])
+    ], extra=_random_stage(own, conv.ev_snapshot, 5000, 100000))
 
 
 C05_CLAUSES = {'reparse-shadowed-by-earlier-union-member', 'serialise-failed', 'not-interchange', 'serialised-form', 'reparse-failed', 'reparse-differs',
@@ -136,7 +136,7 @@ def c05(tier: str) -> int:
         (CLS_CFGS, C05_CLAUSES, conv.ev_roundtrip, {}),
         (TAGGED_CFGS, C05_CLAUSES, conv.ev_roundtrip, {}),
         (UNION_CFGS, C05_CLAUSES, conv.ev_roundtrip, {}),
-    ])
+    ], extra=_random_stage(C05_CLAUSES, conv.ev_roundtrip, 5000, 100000))
 
 
 C06_CLAUSES = {'fixpoint-shadowed-by-earlier-union-member', 'native-shadowed-by-earlier-union-member',
@@ -230,6 +230,18 @@ def _multi_grammar(pid: str, tier: str, plans: list, *, extra=None) -> int:
     return rep.finish()
 
 
+def _random_stage(owned: set, maker, quick_n: int, thorough_n: int, child_event=None, depth: int = 4):
+    """code-to-spec: seeded random types/values beyond the constants of the exhaustive configs"""
+    def extra(rep, stats):
+        from . import randgen
+        n = quick_n if rep.tier == 'quick' else thorough_n
+        tvs = randgen.cases(1000 + engine.seed(), n, depth)
+        stats['random:' + maker.__name__] = pipeline.run_events(rep, tvs, owned, label=f'{rep.prop.lower()}-rand', make_event=maker,
+                                                               reverse=False, child_event=child_event)
+        stats['random:' + maker.__name__]['seed'] = 1000 + engine.seed()
+    return extra
+
+
 def _validate_plain(rep, events: list, desc: dict, owned: set, label: str):
     """Events without (T, v) structure (no descent): validate, report each rejected one."""
     bad = engine.validate(events, name=label)
@@ -307,12 +319,12 @@ C07_CLAUSES = {'node-kind', 'children-keys', 'missing-fields', 'extra-fields', '
 @check('C07')
 def c07(tier: str) -> int:
     return _multi_grammar('C07', tier, [
-        (SCALAR_CFGS, C07_CLAUSES, conv.ev_tree, {'extra_sp': 1}),
+        (SCALAR_CFGS, C07_CLAUSES, conv.ev_tree, {'extra_sp': 0 if tier == 'quick' else 1}),
         (CLS_CFGS, C07_CLAUSES, conv.ev_tree, {}),
         (TAGGED_CFGS, C07_CLAUSES, conv.ev_tree, {}),
         (UNION_CFGS, C07_CLAUSES, conv.ev_tree, {}),
         (COND_CFGS, C07_CLAUSES, conv.ev_tree, {}),
-    ])
+    ], extra=_random_stage(C07_CLAUSES, conv.ev_tree, 3000, 100000))
 
 
 C08_CLAUSES = {'render-raised', 'render-unstable', 'render-incomplete'}
@@ -326,7 +338,7 @@ def c08(tier: str) -> int:
         (TAGGED_CFGS, C08_CLAUSES, conv.ev_render, {}),
         (UNION_CFGS, C08_CLAUSES, conv.ev_render, {}),
         (EXC_CFGS, C08_CLAUSES, conv.ev_render, {}),
-    ])
+    ], extra=_random_stage(C08_CLAUSES, conv.ev_render, 2500, 60000))
 
 
 _EVENT_MAKERS.update({'tree': conv.ev_tree, 'render': conv.ev_render})
